@@ -503,6 +503,78 @@ def run(only=None):
             rep.internal_error(f"{name}: {res.capped} (search incomplete, no fix-point)")
         s.done()
         rep.bounds[name] = {"depth_completed": res.depth_completed, "fixpoint": res.exhausted, "states": res.states}
+    # ---- scale: far more peers than the searches use --------------------------------------------------------
+    if not only or "many_peers" in only:
+        s = rep.sub("many_peers",
+                    "two linear histories with the real handlers: (P2P) 1300 sources register, then each one pings and asks for DMR start-up: every "
+                    "one is served, a source that never registered gets the single-byte reject; (RDAC) 300 peers each take the first three steps "
+                    "of the identification, interleaved, then every peer's step is what its own datagrams imply and each completes its run once")
+        try:
+            SEAMS.uid = 0
+            st = RepeaterStorage()
+            tr = RecTransport()
+            h_ = P2PDatagramProtocol(st, p2p_port=P2P_PORT, rdac_port=RDAC_PORT)
+            h_.connection_made(tr)
+            srcs = [(f"10.{10 + i // 250}.{i % 250}.9", 50000 + (i % 2)) for i in range(1300)]
+            for a_ in srcs:
+                h_.datagram_received(P2P_DGRAMS["REG"], a_)
+            notserved = 0
+            for i, a_ in enumerate(srcs):
+                tr.sent = []
+                h_.datagram_received(P2P_DGRAMS["PING"], a_)
+                c1 = [classify_p2p(o, P2P_DGRAMS["PING"]) for o, _ in tr.sent]
+                tr.sent = []
+                h_.datagram_received(P2P_DGRAMS["DMR"], a_)
+                c2 = [classify_p2p(o, P2P_DGRAMS["DMR"]) for o, _ in tr.sent]
+                if c1 != ["ping_answer"] or c2 != ["acceptance", "redirect"]:
+                    notserved += 1
+                s.case(nontrivial=True, calls=2, outcome="p2p", sample={"source": list(a_)} if i == 0 else None)
+            if notserved:
+                s.violation("many_peers:registered_source_no_longer_served_after_many_others_registered", {"not_served": notserved, "of": len(srcs)},
+                            "a source that completed registration is rejected or not answered once many other sources have registered")
+            tr.sent = []
+            h_.datagram_received(P2P_DGRAMS["PING"], ("10.99.0.1", 50000))
+            if tr.sent != [(b"\x00", ("10.99.0.1", 50000))]:
+                s.violation("many_peers:unregistered_request_not_answered_by_single_reject", {"sent": [o.hex() for o, _ in tr.sent]})
+        except Exception as e:  # noqa: BLE001
+            s.violation("many_peers:exception_p2p:" + exc_sig(e), {}, repr(e))
+        try:
+            SEAMS.uid = 0
+            st = RepeaterStorage()
+            tr = RecTransport()
+            done = []
+            r_ = RDACDatagramProtocol(st, callback=done.append)
+            r_.connection_made(tr)
+            peers = [(f"10.{20 + i // 250}.{i % 250}.5", RDAC_PORT) for i in range(300)]
+            prefix3 = ["EMPTY", "FULL_FD", "FULL_10"]
+            for k in prefix3:  # interleaved: all peers take step k before any takes step k+1
+                for a_ in peers:
+                    r_.datagram_received(RDAC_DGRAMS[k], a_)
+            want_step = None
+            bad = 0
+            for a_ in peers:
+                st_ = r_.step.get(a_[0])
+                if want_step is None:
+                    want_step = st_
+                if st_ != want_step or st_ is None or st_ < 2:
+                    bad += 1
+            if bad:
+                s.violation("many_peers:step_of_a_peer_lost_or_changed_by_other_peers", {"peers_with_other_step": bad, "of": len(peers), "expected_step": want_step},
+                            "after identical interleaved prefixes the peers are not all at the same step")
+            rest = ["FULL_00", "FULL_00", "FULL_10", "FULL_00", "FULL_10", "FULL_10", "FULL_00", "FULL_10", "FULL_00", "FULL_FA", "FULL_FA", "FULL_FA"]
+            for i, a_ in enumerate(peers):
+                n0 = len(done)
+                for k in rest:
+                    if r_.step.get(a_[0]) == 14:
+                        break
+                    r_.datagram_received(RDAC_DGRAMS[k], a_)
+                if len(done) - n0 != 1 or r_.step.get(a_[0]) != 14:
+                    s.violation("many_peers:run_not_completed_exactly_once", {"peer_index": i, "completions": len(done) - n0, "step": r_.step.get(a_[0])})
+                    break
+                s.case(nontrivial=True, calls=len(rest), outcome="rdac")
+        except Exception as e:  # noqa: BLE001
+            s.violation("many_peers:exception_rdac:" + exc_sig(e), {}, repr(e))
+        s.done()
     return rep.finish()
 
 
